@@ -260,6 +260,34 @@ pub fn build(rng: &mut Rng, o: &mut Outcome) -> Spreadsheet {
         }
         annotate_sheet(rng, ws, n, &mut uid, o, heavy);
     }
+    // sheet-scoped names (localSheetId = index of the holding sheet); some of them refer to cells of another sheet
+    for i in 0..names.len() {
+        let other = &names[rng.below(names.len() as u64) as usize];
+        let other_q = if other.chars().all(|c| c.is_ascii_alphanumeric()) && !other.chars().next().unwrap().is_ascii_digit() { other.to_string() } else { format!("'{}'", other.replace('\'', "''")) };
+        let ws = book.get_sheet_mut(&i).unwrap();
+        for dn in ws.get_defined_names_mut().iter_mut() {
+            match rng.below(4) {
+                0 => {
+                    dn.set_local_sheet_id(i as u32);
+                    o.count("defined-names.sheet-scoped", 1);
+                }
+                1 => {
+                    dn.set_local_sheet_id(i as u32);
+                    dn.set_address(format!("{}!$B$2:$C${}", other_q, 3 + i));
+                    o.count("defined-names.sheet-scoped-referring-elsewhere", 1);
+                }
+                _ => {}
+            }
+        }
+        // set_address appends an area, so the names above still start on their own sheet; a scoped name that refers
+        // only to another sheet has to be created with that address
+        if rng.chance(1, 2) {
+            uid += 1;
+            let _ = ws.add_defined_name(format!("L{}_ü", uid), format!("{}!$D$4:$E${}", other_q, 6 + i));
+            ws.get_defined_names_mut().last_mut().unwrap().set_local_sheet_id(i as u32);
+            o.count("defined-names.sheet-scoped-only-elsewhere", 1);
+        }
+    }
     if !early_active {
         let at = rng.below(names.len() as u64) as u32;
         book.set_active_sheet(at);
